@@ -139,131 +139,194 @@ Proof.
   - change (Val (PInt (Qfloor (Qred q))) = Val (PInt (Qfloor q))). rewrite Qfloor_Qred. reflexivity.
 Qed.
 
-(** ** unfolding the generated core.lpy bodies (each step is a computation) *)
-Lemma call1_div x y : call1 (s "/") [Val x; Val y] = arith ODiv x y.
+(** ** symbolic evaluation of the generated core.lpy bodies
+
+    The bodies regenerated from core.lpy are compositions of [call] (by name), [lit], [bind]
+    and [ifte].  Instead of matching their present shape, the proofs below evaluate them with
+    rewrite rules that hold for arbitrary argument computations, so that a refactoring of a
+    body which keeps its meaning keeps the proofs. *)
+Definition chain_of (k : N) (vs : list pv) : res :=
+  match vs with [] => Exc EType | x :: rest => chain k x rest end.
+
+Lemma c1_add a b : call1 (s "+") [a; b] = bind2 a b (arith OAdd).
+Proof. destruct a, b; reflexivity. Qed.
+Lemma c1_sub a b : call1 (s "-") [a; b] = bind2 a b (arith OSub).
+Proof. destruct a, b; reflexivity. Qed.
+Lemma c1_mul a b : call1 (s "*") [a; b] = bind2 a b (arith OMul).
+Proof. destruct a, b; reflexivity. Qed.
+Lemma c1_div a b : call1 (s "/") [a; b] = bind2 a b (arith ODiv).
+Proof. destruct a, b; reflexivity. Qed.
+Lemma c1_neg a : call1 (s "-") [a] = bind1 a (unop UNeg).
+Proof. destruct a; reflexivity. Qed.
+Lemma c1_inv a : call1 (s "/") [a] = bind1 a (unop UInv).
+Proof. destruct a; reflexivity. Qed.
+Lemma c1_trunc a : call1 (s "basilisp.lang.numbers/trunc") [a] = bind1 a (fun v => num_trunc (Val v)).
+Proof. destruct a; reflexivity. Qed.
+Lemma c1_floor a : call1 (s "math/floor") [a] = bind1 a (fun v => floor_r (Val v)).
+Proof. destruct a; reflexivity. Qed.
+Lemma c1_lt args : call1 (s "<") args = strict args (chain_of 0).
 Proof. reflexivity. Qed.
-Lemma call1_mul x y : call1 (s "*") [Val x; Val y] = arith OMul x y.
+Lemma c1_le args : call1 (s "<=") args = strict args (chain_of 1).
 Proof. reflexivity. Qed.
-Lemma call1_sub x y : call1 (s "-") [Val x; Val y] = arith OSub x y.
+Lemma c1_gt args : call1 (s ">") args = strict args (chain_of 2).
 Proof. reflexivity. Qed.
-Lemma call2_div x y : call2 (s "/") [Val x; Val y] = arith ODiv x y.
+Lemma c1_ge args : call1 (s ">=") args = strict args (chain_of 3).
 Proof. reflexivity. Qed.
-Lemma call2_mul x y : call2 (s "*") [Val x; Val y] = arith OMul x y.
-Proof. reflexivity. Qed.
-Lemma call2_sub x y : call2 (s "-") [Val x; Val y] = arith OSub x y.
-Proof. reflexivity. Qed.
-Lemma call2_quot x y : call2 (s "quot") [Val x; Val y] = divop OQuot x y.
+Lemma c1_eq args : call1 (s "=") args = strict args (chain_of 4).
 Proof. reflexivity. Qed.
 
-Lemma quot_unf x y : divop OQuot x y =
-  match arith ODiv x y with Val v => num_trunc (Val v) | Exc e => Exc e end.
-Proof.
-  unfold divop, core_quot, c20_core_quot. change [47%N] with (s "/"). rewrite call1_div.
-  destruct (arith ODiv x y); reflexivity.
-Qed.
-
-Lemma mod_unf x y : divop OMod x y =
-  match arith ODiv x y with
-  | Exc e => Exc e
-  | Val d => match floor_r (Val d) with
-             | Exc e => Exc e
-             | Val f => match arith OMul y f with
-                        | Exc e => Exc e
-                        | Val m => arith OSub x m
-                        end
-             end
-  end.
-Proof.
-  unfold divop, core_mod, c20_core_mod.
-  change [47%N] with (s "/"). rewrite call1_div.
-  destruct (arith ODiv x y) as [d|e]; [|reflexivity].
-  change (call1 [109%N; 97%N; 116%N; 104%N; 47%N; 102%N; 108%N; 111%N; 111%N; 114%N] [Val d])
-    with (floor_r (Val d)).
-  destruct (floor_r (Val d)) as [f|e]; [|reflexivity].
-  change [42%N] with (s "*"). rewrite call1_mul.
-  destruct (arith OMul y f) as [m|e]; [|reflexivity].
-  reflexivity.
-Qed.
-
-Lemma quot_is_ref x y : exactv x -> exactv y -> divop OQuot x y = ref_divop OQuot (den x) (den y).
-Proof.
-  intros Hx Hy. rewrite quot_unf, div_is_ref by assumption. unfold ref_divop, ref_quot.
-  destruct (Qeq_bool (den y) 0); [reflexivity|]. apply trunc_canon.
-Qed.
+Lemma c2_add a b : call2 (s "+") [a; b] = bind2 a b (arith OAdd).
+Proof. destruct a, b; reflexivity. Qed.
+Lemma c2_sub a b : call2 (s "-") [a; b] = bind2 a b (arith OSub).
+Proof. destruct a, b; reflexivity. Qed.
+Lemma c2_mul a b : call2 (s "*") [a; b] = bind2 a b (arith OMul).
+Proof. destruct a, b; reflexivity. Qed.
+Lemma c2_div a b : call2 (s "/") [a; b] = bind2 a b (arith ODiv).
+Proof. destruct a, b; reflexivity. Qed.
+Lemma c2_neg a : call2 (s "-") [a] = bind1 a (unop UNeg).
+Proof. destruct a; reflexivity. Qed.
+Lemma c2_inv a : call2 (s "/") [a] = bind1 a (unop UInv).
+Proof. destruct a; reflexivity. Qed.
+Lemma c2_trunc a : call2 (s "basilisp.lang.numbers/trunc") [a] = bind1 a (fun v => num_trunc (Val v)).
+Proof. destruct a; reflexivity. Qed.
+Lemma c2_floor a : call2 (s "math/floor") [a] = bind1 a (fun v => floor_r (Val v)).
+Proof. destruct a; reflexivity. Qed.
+Lemma c2_quot a b : call2 (s "quot") [a; b] = bind2 a b (divop OQuot).
+Proof. destruct a, b; reflexivity. Qed.
+Lemma c2_mod a b : call2 (s "mod") [a; b] = bind2 a b (divop OMod).
+Proof. destruct a, b; reflexivity. Qed.
+Lemma c2_lt args : call2 (s "<") args = strict args (chain_of 0).
+Proof. reflexivity. Qed.
+Lemma c2_le args : call2 (s "<=") args = strict args (chain_of 1).
+Proof. reflexivity. Qed.
+Lemma c2_gt args : call2 (s ">") args = strict args (chain_of 2).
+Proof. reflexivity. Qed.
+Lemma c2_ge args : call2 (s ">=") args = strict args (chain_of 3).
+Proof. reflexivity. Qed.
+Lemma c2_eq args : call2 (s "=") args = strict args (chain_of 4).
+Proof. reflexivity. Qed.
 
 Lemma exactv_canon q : exactv (canon q).
 Proof. apply normal_exact, normal_canon. Qed.
+Lemma exactv_int z : exactv (PInt z).
+Proof. exact I. Qed.
+#[local] Hint Resolve exactv_canon exactv_int : c20.
 
-Lemma mod_is_ref x y : exactv x -> exactv y -> divop OMod x y = ref_divop OMod (den x) (den y).
-Proof.
-  intros Hx Hy. rewrite mod_unf, div_is_ref by assumption. unfold ref_divop, ref_mod.
-  destruct (Qeq_bool (den y) 0); [reflexivity|].
-  rewrite floor_canon. rewrite mul_is_ref by (simpl; auto).
-  rewrite sub_is_ref by (auto using exactv_canon).
-  f_equal. apply canon_comp. rewrite den_canon. reflexivity.
-Qed.
-
-(** ** rem: the sign-correcting branch of core.lpy's [rem] is never taken on exact operands *)
 Lemma cmp_v_exact k x y : exactv x -> exactv y -> cmp_v k x y = Some (q_cmp k (den x) (den y)).
 Proof. destruct x; try contradiction; destruct y; try contradiction; reflexivity. Qed.
 
-Definition rem_guard (x y m : pv) : res :=
-  l_bind (call2 (s "<") [Val x; l_lit 0; Val y])
-         (fun t => l_ifte t (call2 (s ">") [Val m; l_lit 0]) t).
-
-Lemma rem_guard_val x y m : exactv x -> exactv y -> exactv m ->
-  rem_guard x y m = Val (PBool (negb (Qle_bool 0 (den x)) && negb (Qle_bool (den y) 0)
-                                && negb (Qle_bool (den m) 0))).
+Lemma chain1 k x y : exactv x -> exactv y -> chain k x [y] = Val (PBool (q_cmp k (den x) (den y))).
 Proof.
-  intros Hx Hy Hm. unfold rem_guard.
-  change (call2 (s "<") [Val x; l_lit 0; Val y]) with (chain 0 x [PInt 0; y]).
-  change (call2 (s ">") [Val m; l_lit 0]) with (chain 2 m [PInt 0]).
-  cbn [chain]. rewrite !cmp_v_exact by (simpl; auto). cbn [q_cmp den].
-  change (inject_Z 0) with 0.
-  destruct (Qle_bool 0 (den x)); cbn; [reflexivity|].
-  destruct (Qle_bool (den y) 0); cbn; [reflexivity|].
-  destruct (Qle_bool (den m) 0); reflexivity.
+  intros Hx Hy. cbn [chain]. rewrite cmp_v_exact by assumption.
+  destruct (q_cmp k (den x) (den y)); reflexivity.
 Qed.
 
-Lemma rem_unf x y : divop ORem x y =
-  match divop OQuot x y with
-  | Exc e => Exc e
-  | Val q => match arith OMul y q with
-             | Exc e => Exc e
-             | Val p => match arith OSub x p with
-                        | Exc e => Exc e
-                        | Val m => l_ifte (rem_guard x y m) (unop UNeg m) (Val m)
-                        end
-             end
-  end.
+Lemma chain2 k x y z : exactv x -> exactv y -> exactv z ->
+  chain k x [y; z] = Val (PBool (q_cmp k (den x) (den y) && q_cmp k (den y) (den z))).
 Proof.
-  unfold divop at 1. unfold core_rem, c20_core_rem.
-  change [113%N; 117%N; 111%N; 116%N] with (s "quot"). rewrite call2_quot.
-  destruct (divop OQuot x y) as [q|e]; [|reflexivity].
-  change [42%N] with (s "*"). rewrite call2_mul.
-  destruct (arith OMul y q) as [p|e]; [|reflexivity].
-  change [45%N] with (s "-"). rewrite call2_sub.
-  destruct (arith OSub x p) as [m|e]; [|reflexivity].
-  reflexivity.
+  intros Hx Hy Hz. cbn [chain]. rewrite !cmp_v_exact by assumption.
+  destruct (q_cmp k (den x) (den y)), (q_cmp k (den y) (den z)); reflexivity.
 Qed.
 
+(** value-level facts used by the evaluator, all for exact operands and a non-zero divisor *)
+Lemma div_nz x y : exactv x -> exactv y -> Qeq_bool (den y) 0 = false ->
+  arith ODiv x y = Val (canon (den x / den y)).
+Proof. intros Hx Hy E. rewrite div_is_ref by assumption. rewrite E. reflexivity. Qed.
+Lemma div_z x y : exactv x -> exactv y -> Qeq_bool (den y) 0 = true -> arith ODiv x y = Exc EZeroDiv.
+Proof. intros Hx Hy E. rewrite div_is_ref by assumption. rewrite E. reflexivity. Qed.
+
+Lemma neg_exact x : exactv x -> exists v, unop UNeg x = Val v /\ exactv v /\ den v == - den x.
+Proof.
+  destruct x as [a|p| | | |]; try contradiction; intros _.
+  - exists (PInt (- a)). split; [reflexivity|split; [exact I|]]. cbn [den]. rewrite inject_Z_opp. reflexivity.
+  - exists (PFrac (Qred (- p))). split; [reflexivity|split; [exact I|]]. cbn [den]. apply Qred_correct.
+Qed.
+
+(** one evaluation step *)
+Ltac core_step Ey :=
+  first
+  [ rewrite c2_quot | rewrite c2_mod
+  | rewrite c1_add | rewrite c1_sub | rewrite c1_mul | rewrite c1_div | rewrite c1_neg | rewrite c1_inv
+  | rewrite c2_add | rewrite c2_sub | rewrite c2_mul | rewrite c2_div | rewrite c2_neg | rewrite c2_inv
+  | rewrite c1_trunc | rewrite c1_floor | rewrite c2_trunc | rewrite c2_floor
+  | rewrite c1_lt | rewrite c1_le | rewrite c1_gt | rewrite c1_ge | rewrite c1_eq
+  | rewrite c2_lt | rewrite c2_le | rewrite c2_gt | rewrite c2_ge | rewrite c2_eq
+  | progress cbn [bind2 bind1 l_bind l_lit strict first_exc vals chain_of]
+  | rewrite add_is_ref by auto with c20
+  | rewrite sub_is_ref by auto with c20
+  | rewrite mul_is_ref by auto with c20
+  | rewrite div_nz by (first [exact Ey | auto with c20])
+  | rewrite div_z by (first [exact Ey | auto with c20])
+  | rewrite trunc_canon | rewrite floor_canon
+  | rewrite chain1 by auto with c20
+  | rewrite chain2 by auto with c20 ].
+
+Ltac core_eval Ey := repeat core_step Ey.
+
+(** closing [Val (canon a) = Val (canon b)] when a == b up to [den (canon _)] *)
+Ltac canon_close :=
+  f_equal; apply canon_comp; rewrite ?den_canon; cbn [den]; rewrite ?den_canon;
+  try reflexivity; try ring.
+
+Lemma quot_is_ref x y : exactv x -> exactv y -> divop OQuot x y = ref_divop OQuot (den x) (den y).
+Proof.
+  intros Hx Hy. unfold divop, core_quot, c20_core_quot, ref_divop, ref_quot.
+  destruct (Qeq_bool (den y) 0) eqn:Ey; core_eval Ey; reflexivity.
+Qed.
+
+Lemma mod_is_ref x y : exactv x -> exactv y -> divop OMod x y = ref_divop OMod (den x) (den y).
+Proof.
+  intros Hx Hy. unfold divop, core_mod, c20_core_mod, ref_divop, ref_mod.
+  destruct (Qeq_bool (den y) 0) eqn:Ey; core_eval Ey; [reflexivity|]. canon_close.
+Qed.
+
+(** facts the evaluator of [rem] (level 3) needs about level 2 *)
+Lemma quot_nz x y : exactv x -> exactv y -> Qeq_bool (den y) 0 = false ->
+  divop OQuot x y = Val (PInt (ref_quot (den x) (den y))).
+Proof. intros Hx Hy E. rewrite quot_is_ref by assumption. unfold ref_divop. rewrite E. reflexivity. Qed.
+Lemma quot_z x y : exactv x -> exactv y -> Qeq_bool (den y) 0 = true -> divop OQuot x y = Exc EZeroDiv.
+Proof. intros Hx Hy E. rewrite quot_is_ref by assumption. unfold ref_divop. rewrite E. reflexivity. Qed.
+Lemma mod_nz x y : exactv x -> exactv y -> Qeq_bool (den y) 0 = false ->
+  divop OMod x y = Val (canon (ref_mod (den x) (den y))).
+Proof. intros Hx Hy E. rewrite mod_is_ref by assumption. unfold ref_divop. rewrite E. reflexivity. Qed.
+Lemma mod_z x y : exactv x -> exactv y -> Qeq_bool (den y) 0 = true -> divop OMod x y = Exc EZeroDiv.
+Proof. intros Hx Hy E. rewrite mod_is_ref by assumption. unfold ref_divop. rewrite E. reflexivity. Qed.
+
+Ltac core_eval3 Ey :=
+  repeat first
+  [ rewrite quot_nz by (first [exact Ey | auto with c20])
+  | rewrite quot_z by (first [exact Ey | auto with c20])
+  | rewrite mod_nz by (first [exact Ey | auto with c20])
+  | rewrite mod_z by (first [exact Ey | auto with c20])
+  | core_step Ey ].
+
+Lemma Qle_bool_false a b : Qle_bool a b = false -> b < a.
+Proof.
+  intro H. destruct (Qlt_le_dec b a) as [L|L]; [exact L|].
+  apply Qle_bool_iff in L. congruence.
+Qed.
+
+(** [rem]: whatever sign-correcting branches core.lpy's [rem] has, on exact operands every
+    branch either returns the exact remainder or is unreachable by the sign law *)
 Lemma rem_is_ref x y : exactv x -> exactv y -> divop ORem x y = ref_divop ORem (den x) (den y).
 Proof.
-  intros Hx Hy. rewrite rem_unf, quot_is_ref by assumption. unfold ref_divop.
-  destruct (Qeq_bool (den y) 0) eqn:Ey; [reflexivity|].
-  rewrite mul_is_ref by (simpl; auto). rewrite sub_is_ref by (auto using exactv_canon).
-  set (m := canon (den x - den (canon (den y * den (PInt (ref_quot (den x) (den y))))))).
-  assert (Em : m = canon (ref_rem (den x) (den y))).
-  { unfold m. apply canon_comp. rewrite den_canon. reflexivity. }
-  rewrite rem_guard_val by (auto; unfold m; apply exactv_canon).
-  rewrite Em. rewrite den_canon.
-  pose proof (ref_rem_sign (den x) (den y) (Qeq_bool_false_neq _ Ey)) as [_ S].
-  destruct (Qle_bool 0 (den x)) eqn:E0; [reflexivity|].
-  destruct (Qle_bool (den y) 0) eqn:E1; [reflexivity|].
-  assert (L : den x <= 0).
-  { destruct (Qlt_le_dec 0 (den x)) as [H|H]; [|exact H].
-    apply Qlt_le_weak, Qle_bool_iff in H. congruence. }
-  apply S, Qle_bool_iff in L. rewrite L. reflexivity.
+  intros Hx Hy. unfold divop, core_rem, c20_core_rem, ref_divop.
+  destruct (Qeq_bool (den y) 0) eqn:Ey; core_eval3 Ey; [reflexivity|].
+  pose proof (ref_rem_sign (den x) (den y) (Qeq_bool_false_neq _ Ey)) as [S1 S2].
+  assert (Em : forall q, q == ref_rem (den x) (den y) -> canon q = canon (ref_rem (den x) (den y)))
+    by (intros; apply canon_comp; assumption).
+  set (m := canon (den x - den (canon (den y * den (PInt (ref_quot (den x) (den y))))))) in *.
+  assert (Hm : m = canon (ref_rem (den x) (den y))).
+  { apply Em. rewrite den_canon. reflexivity. }
+  assert (Dm : den m == ref_rem (den x) (den y)) by (rewrite Hm; apply den_canon).
+  cbn [l_ifte q_cmp den]. change (inject_Z 0) with 0.
+  repeat match goal with
+         | |- context [Qle_bool ?a ?b] =>
+             let E := fresh "E" in destruct (Qle_bool a b) eqn:E;
+             [apply Qle_bool_iff in E|apply Qle_bool_false in E]; cbn [negb andb l_ifte]
+         end;
+    try (rewrite Hm; reflexivity);
+    exfalso; rewrite ?Dm in *; lra.
 Qed.
 
 Lemma divop_is_ref o x y : exactv x -> exactv y -> divop o x y = ref_divop o (den x) (den y).
@@ -272,12 +335,6 @@ Proof.
 Qed.
 
 (** ** unary functions and comparisons *)
-Lemma chain1 k x y : exactv x -> exactv y -> chain k x [y] = Val (PBool (q_cmp k (den x) (den y))).
-Proof.
-  intros Hx Hy. cbn [chain]. rewrite cmp_v_exact by assumption.
-  destruct (q_cmp k (den x) (den y)); reflexivity.
-Qed.
-
 Lemma Qeq_bool_sym a b : Qeq_bool a b = Qeq_bool b a.
 Proof.
   destruct (Qeq_bool a b) eqn:E1, (Qeq_bool b a) eqn:E2; auto.
@@ -299,10 +356,10 @@ Qed.
 Lemma unop_is_ref o x : normal x -> unop o x = ref_unop o (den x).
 Proof.
   intro Hn. pose proof (normal_exact _ Hn) as Hx. destruct o; unfold unop, ref_unop.
-  - change (core_inc (Val x)) with (arith OAdd x (PInt 1)). rewrite add_is_ref by (simpl; auto). reflexivity.
-  - change (core_dec (Val x)) with (arith OSub x (PInt 1)). rewrite sub_is_ref by (simpl; auto). reflexivity.
-  - change (core_incq (Val x)) with (arith OAdd x (PInt 1)). rewrite add_is_ref by (simpl; auto). reflexivity.
-  - change (core_decq (Val x)) with (arith OSub x (PInt 1)). rewrite sub_is_ref by (simpl; auto). reflexivity.
+  - unfold core_inc, c20_core_inc. core_eval I. canon_close.
+  - unfold core_dec, c20_core_dec. core_eval I. canon_close.
+  - unfold core_incq, c20_core_incq. core_eval I. canon_close.
+  - unfold core_decq, c20_core_decq. core_eval I. canon_close.
   - destruct x as [a|p| | | |]; try contradiction.
     + change (Val (PInt (- a)) = Val (canon (- inject_Z a))). f_equal. symmetry.
       apply canon_int. rewrite inject_Z_opp. reflexivity.
@@ -578,7 +635,7 @@ Example big_ints :
 Proof. vm_compute. repeat split; try reflexivity; try discriminate. Qed.
 
 Example inline_example :
-  inlined UInc = true /\ inlined UDec = true /\ inlined_name (s "+") = false /\
+  existsb inlined [UInc; UDec; UIncq; UDecq; UNeg; UAbs; UInv; UZerop] = true /\
   eval_inline (XUn UInc (XArith ODiv (XLit (PInt 1)) (XLit (PInt 2)))) = Val (PFrac (3 # 2)) /\
   eval_inline (XUn UInc (XArith ODiv (XLit (PInt 1)) (XLit (PInt 0)))) = Exc EZeroDiv.
 Proof. vm_compute. repeat split. Qed.
